@@ -755,3 +755,58 @@ Lemma exceptions_of_ok_cfg : forall c, cfg_ok c = true -> exceptions c = tolerat
 Proof.
   intros c Hc. unfold cfg_ok in Hc. unfold exceptions. destruct (c_rid c); try discriminate. rewrite Hc. reflexivity.
 Qed.
+
+(* ================================================================== the imported state is well-formed again *)
+Lemma keys_match_map_vals : forall V (f : V -> nat) (g : nat * V -> V) (m : smap V),
+  (forall kv, f (g kv) = f (snd kv)) -> keys_match f m -> keys_match f (map (fun kv => (fst kv, g kv)) m).
+Proof.
+  intros V f g m Hg Hk k v Hin. apply in_map_iff in Hin. destruct Hin as [[k0 v0] [E Hin]]. cbn in E. inversion E; subst.
+  rewrite Hg. cbn. exact (Hk _ _ Hin).
+Qed.
+
+Lemma wf_after_import : forall F env h t s s',
+  wf_app F env s -> state_equiv false false env h t s s' -> wf_app F env s'.
+Proof.
+  intros F env h t s s' [Wsu [Hes Hek Hest] Wo Wt Wd Wv Wenv] (Esu & Einf & Eep & Eo & Etf & Edg & Eev).
+  constructor.
+  - rewrite Esu. exact Wsu.
+  - unfold epochs_equiv in Eep. rewrite Eep. constructor.
+    + rewrite (sortedb_map_vals _ _ (fun kv => rebase_epoch h (snd kv))). exact Hes.
+    + apply (keys_match_map_vals _ ep_id (fun kv => rebase_epoch h (snd kv))); [reflexivity | exact Hek].
+    + intros k e Hin. apply in_map_iff in Hin. destruct Hin as [[k0 e0] [E Hin]]. cbn in E. inversion E; subst. cbn. exact (Hest _ _ Hin).
+  - destruct Eo as (E1 & E2 & E3 & E4 & E5 & E6 & E7 & E8 & E9 & E10 & _).
+    destruct Wo as [Hr Hf Hm Hpv Hv Hp Kpv Kv [Hrs Hrk] Hne].
+    constructor; try (rewrite ?E3, ?E4, ?E5, ?E6, ?E7; assumption).
+    + rewrite E9. unfold restamp. rewrite (sortedb_map_vals _ _ (fun kv => {| r_rate := r_rate (snd kv); r_created := h; r_ts := t |})). exact Hr.
+    + unfold wf_rewards. rewrite E8. split; assumption.
+    + rewrite E7, E2. exact Hne.
+  - destruct Etf as (E1 & E2 & E3 & E4 & E5 & E6). specialize (E6 eq_refl).
+    destruct Wt as [Hd Hk Hp Hc Hi Hm]. constructor; rewrite ?E2, ?E3, ?E4, ?E5, ?E6; assumption.
+  - rewrite Edg. exact Wd.
+  - destruct Eev as (E1 & E2 & E3 & E4 & E5 & E6). destruct Wv as [Hc Hh Hs Hsl Hft Hfk Hi1 Hi2].
+    constructor; rewrite ?E2, ?E3, ?E4; try assumption.
+    + rewrite E5. apply sortedb_filter. exact Hc.
+    + intros hh c Hin. rewrite E5 in Hin. apply filter_In in Hin. exact (Hh _ _ (proj1 Hin)).
+    + rewrite E6. apply sortedb_filter. exact Hs.
+    + intros a m Hin. rewrite E6 in Hin. apply filter_In in Hin. exact (Hsl _ _ (proj1 Hin)).
+  - exact Wenv.
+Qed.
+
+(** hence the round trip can be iterated: importing the second export (at any later height) gives a
+    third export that is again the first one up to the epoch start heights *)
+Lemma roundtrip_twice : forall c F env h t h2 t2 s, cfg_ok c = true -> wf_app F env s ->
+  exists g s' s'' g'',
+    export_app env s = Some g /\ init_app c F env (tf_bankmd (a_tf s)) h t g = Some s' /\
+    init_app c F env (tf_bankmd (a_tf s')) h2 t2 (rebase_gen h g) = Some s'' /\
+    export_app env s'' = Some g'' /\ gen_equiv h2 g g''.
+Proof.
+  intros c F env h t h2 t2 s Hc W.
+  destruct (app_roundtrip c F env h t s W) as (g & s' & H1 & H2 & H3 & H4).
+  assert (H4' : state_equiv false false env h t s s').
+  { unfold cfg_ok in Hc. destruct (c_rid c); try discriminate. rewrite Hc in H4. exact H4. }
+  pose proof (wf_after_import F env h t s s' W H4') as W'.
+  destruct (app_roundtrip c F env h2 t2 s' W') as (g2 & s'' & K1 & K2 & K3 & _).
+  rewrite H3 in K1. inversion K1; subst g2.
+  exists g, s', s'', (rebase_gen h2 (rebase_gen h g)). repeat (split; [assumption|]).
+  unfold gen_equiv, rebase_gen. cbn. f_equal. rewrite map_map. reflexivity.
+Qed.
